@@ -5,8 +5,8 @@ import json,os,re,shutil,sys
 prop,n,det=sys.argv[1],sys.argv[2],sys.argv[3]; needs=' '.join(sys.argv[4:])
 round2 = prop.endswith('b')
 src=f'/tmp/wt/{prop}-out'; dst=f'/verif/seeded/{prop}-{n}'
-if round2: prop_id=prop[:-1]
-else: prop_id=prop; os.makedirs(dst,exist_ok=True)
+prop_id = prop[:-1] if round2 else prop
+os.makedirs(dst,exist_ok=True)
 pn = n if not n.endswith('o') else '3_optional'
 shutil.copy(f'{src}/patch{pn}.diff',f'{dst}/patch.diff')
 if os.path.exists(f'{src}/patch{pn}.rebased.diff'): shutil.copy(f'{src}/patch{pn}.rebased.diff',f'{dst}/patch.rebased.diff')
